@@ -17,6 +17,7 @@
 -/
 import Std.Data.String.ToInt
 import Proofs.TermsDenote
+import Proofs.BaseInv
 import Props.C02
 
 namespace Measured
@@ -156,6 +157,26 @@ theorem rendered_terms_are_the_unit {base : St} (h : GInv base) (hc : Canon base
     ⟨fun p₁ p₂ a b => (hd.1 p₂ p₁ b a).symm, fun k hk => (hd.2 k hk).symm⟩
   have hrefok : ExprOK base (.ref i) := ⟨fun r hr => by simp [refs] at hr; subst hr; exact hi, fun p hp => by simp [pfxs] at hp⟩
   exact (C02.eval_canonical h hc hrefok hok hd' [] ops i j rfl r).symm
+
+/-- `BaseInv` gives `BaseFactors` for every unit of the state. -/
+theorem baseFactors_of_baseInv {s : St} (hb : BaseInv s) {i : UId} (hi : i < s.units.length) :
+    BaseFactors s (s.unit! i) :=
+  fun f hf => ⟨(hb _ (St.unit!_mem hi) f hf).2.1, (hb _ (St.unit!_mem hi) f hf).2.2⟩
+
+/-- **The text form denotes the unit, in every reachable state.**  `base` canonical with base-unit
+    factors (the shipped state is, per run); `ops₁` ANY history before the unit is rendered — the unit
+    may have been created by it —, `ops₂` ANY history between rendering and re-evaluation.  No
+    hypothesis about the unit beyond its prefix being pushable (`unitTermList … = .ok ts`). -/
+theorem rendered_terms_are_the_unit_reachable {base : St} (h : GInv base) (hc : Canon base) (hb : BaseInv base)
+    (ops₁ : List Op) {i : UId} (hi : i < (run base ops₁).units.length)
+    {ts : List (Pfx × UId × Int)} (ht : unitTermList ((run base ops₁).unit! i) = .ok ts)
+    (ops₂ : List Op) (j : UId)
+    (r : ((termsExpr (run base ops₁).one ts).eval (run (run base ops₁) ops₂)).2 = .ok j) : j = i := by
+  have g1 := run_ginv h ops₁
+  have c1 := run_canon h hc ops₁
+  have b1 := run_baseInv h hc hb ops₁
+  exact rendered_terms_are_the_unit g1 c1 hi (baseFactors_of_baseInv b1 hi) ht
+    (termsExpr_ok g1.1.1 c1 hi ht) ops₂ j r
 
 end C13
 end Measured
